@@ -17,6 +17,7 @@ static void gen_echelon(const GenCtx &ctx, Case &c, int viewpct) {
     m = std::min(m, 300);
     n = std::min(n, 300);
   }
+  if ((r == "mzd_echelonize_pluq" || r == "mzd_echelonize" || r == "_mzd_echelonize_m4ri") && g::coin(1, 6)) g::ple_recursive_shape(ctx, m, n);
   c.set("m", m).set("n", n).set("full", g::rng(0, 1));
   if (r == "mzd_echelonize_m4ri" || r == "_mzd_echelonize_m4ri") c.set("k", k);
   if (r == "_mzd_echelonize_m4ri") {
@@ -78,6 +79,7 @@ static Verdict exec_echelon(const Case &c) {
   bool profile_trivial = true;
   for (int i = 0; i < rk; i++) profile_trivial = profile_trivial && piv[i] == i;
   bool deficient = rk < std::min(m, n);
+  if (n > 64 && (long)((n + 63) / 64) * m > vf_cfg_ple_cutoff()) x.v.label("recursive-PLE-shape");
   x.v.label(full ? "full" : "not-full");
   x.v.label(rk == 0 ? "rank0" : deficient ? "rank-deficient" : "full-rank");
   if (!profile_trivial) x.v.label("pivot-gaps");
